@@ -138,6 +138,16 @@ def extract(repo):
         raise ValueError("populateAttrList: the rule that marks an inherited attribute derived is not recognised")
     if "if(attr->initializer){oa->deriver=ent;}else{oa->deriver=0;}" not in pb:
         raise ValueError("populateAttrList: the rule for a new attribute (derived by its owner iff it has an initializer) changed")
+    # ---- dedupList: does the entry that stays take over the "derived by" mark of the repeated entry that is removed?
+    db = re.sub(r"\s+", "", _body(oa, r"void\s+dedupList\s*\([^)]*\)\s*\{"))
+    if "list.erase(jt+1);" not in db or "strcasecmp((*it)->creator->symbol.name,(*jt)->creator->symbol.name)" not in db:
+        raise ValueError("dedupList: first occurrence of (name, creator) stays — not recognised")
+    if "if(!(*it)->deriver){(*it)->deriver=(*jt)->deriver;}" in db:
+        dedup_merges = "true"
+    elif "deriver" not in db:
+        dedup_merges = "false"
+    else:
+        raise ValueError("dedupList: what happens to the deriver mark is not recognised")
     # ---- NonRefTypeDescriptor: the loop that follows REFERENCE_TYPE links
     td = _strip_comments(rd("src/clstepcore/typeDescriptor.cc"))
     nb = re.sub(r"\s+", "", _body(td, r"const\s+TypeDescriptor\s*\*\s*TypeDescriptor::NonRefTypeDescriptor\s*\(\s*\)\s*const\s*\{"))
@@ -198,6 +208,10 @@ def explicitRedeclMarksDerived : Bool := {explicit_marks}
 /-- ordered_attrs.cc `populateAttrList`: the search for the inherited attribute a redeclaration `SELF\\sup.x` means looks at the
     name only (false) or also requires the entry's creator to be `sup` or a supertype of `sup` (true) -/
 def redeclSearchUsesCreator : Bool := {search_creator}
+
+/-- ordered_attrs.cc `dedupList`: the entry that stays takes over the "derived by" mark of a repeated (name, creator) entry that is
+    removed (true, fix C02-11), or the mark is dropped with the entry (false) -/
+def dedupMergesDeriver : Bool := {dedup_merges}
 
 /-- exp2cxx prints `MakeRedefined( a, nm, declarer )` (true) or `MakeRedefined( a, nm )` (false: first attribute named nm) -/
 def redefinedSearchUsesDeclarer : Bool := {redef_decl}
